@@ -5,6 +5,7 @@
 (*                                                                         *)
 (* Records (JSON, every record has ev and t = virtual ms since the start): *)
 (*   init      settings vector (abstract names), shares = counts on disk,  *)
+(*             slowscan = the start-up scan is held by the harness,        *)
 (*             T = reconnect timeout (ms), slack                           *)
 (*   conn      st, reason      ConnectionStateChangedEvent of the server   *)
 (*                             connection                                  *)
@@ -20,6 +21,8 @@
 (*                             arr = the frame was seen by the server      *)
 (*   spawn     kind            the harness caused a background activity    *)
 (*   stop_call / stop_ret      stop_ret carries a snapshot                 *)
+(*   stall     on, st, d       inside stop(): a close is being held for d  *)
+(*                             ms (records of what happens meanwhile follow)*)
 (*   start                     start() returned, with snapshot             *)
 (*   q                         quiescent snapshot: session, srvst,         *)
 (*                             derived, tasks, open                        *)
@@ -69,7 +72,7 @@ TInit ==
   /\ cfg = [ports |-> ToSet(I0.ports), friends |-> ToSet(I0.friends), liked |-> ToSet(I0.liked),
             hated |-> ToSet(I0.hated), favs |-> ToSet(I0.favs), autoJoin |-> I0.autoJoin,
             invites |-> I0.invites, reconnect |-> I0.reconnect, shares |-> I0.shares]
-  /\ plan = [burst |-> <<>>, exp |-> Expected(cfg)]
+  /\ plan = [burst |-> <<>>, exp |-> Expected(cfg), slow |-> I0.slowscan]
   /\ phase = "new" /\ spc = "none" /\ srv = "none" /\ reason = "none"
   /\ session = FALSE /\ lpc = "idle" /\ sent = {}
   /\ epi = [had |-> FALSE, n |-> 0]
@@ -86,7 +89,9 @@ TInit ==
 \* The two silent steps are urgent: no record is consumed while one of them is enabled, so a
 \* trace has one path through the spec and a rejection names the real reason.
 AutoFailPending == lpc = "auto" /\ lmode \in {"rejected", "garbled"}
-SilentPending == AutoFailPending \/ spc = "svc"
+\* stop() is about to return: the connections are closed, then the services are stopped
+NetDonePending == spc \in {"net", "netslow"} /\ l <= Len(T) /\ Rec.ev = "stop_ret"
+SilentPending == AutoFailPending \/ spc = "svc" \/ NetDonePending
 IsEv(e) == l <= Len(T) /\ Rec.ev = e /\ ~SilentPending
 Consume == l' = l + 1 /\ now' = Rec.t /\ UNCHANGED tid
 NotQ == atq' = FALSE /\ obsS' = obsS
@@ -264,6 +269,15 @@ TStopCall ==
   /\ wdDue' = 0 /\ pend' = "none"
   /\ UNCHANGED <<ovars, lst, lmode, gotS, udc, clsg, early, xc>> /\ NotQ /\ Consume
 
+\* closing the connections takes long (the harness' slow listener suspended on a report)
+TStall ==
+  /\ IsEv("stall") /\ StopStallCore
+  /\ UNCHANGED <<ovars, xvars>> /\ NotQ /\ Consume
+
+StopNetDoneSilent ==
+  /\ NetDonePending /\ StopNetDoneCore
+  /\ UNCHANGED <<ovars, tid, l, now, atq, obsS, xvars>>
+
 StopServicesSilent ==
   /\ l <= Len(T) + 1 /\ StopServicesCore
   /\ UNCHANGED <<ovars, tid, l, now, atq, obsS, xvars>>
@@ -303,7 +317,7 @@ TStep ==
   \/ TInject \/ TConnClosing \/ TConnClosed \/ TConnConnecting \/ TLinkServer \/ TConnConnected
   \/ TConnFailed \/ TConnClosedLate \/ TSdestroy \/ TLinkPeer
   \/ TUserDiscCall \/ TUserDiscRet \/ TExecCall \/ TExec \/ TSpawn \/ TNote
-  \/ TStopCall \/ StopServicesSilent \/ TStopRet \/ TQ
+  \/ TStopCall \/ TStall \/ StopNetDoneSilent \/ StopServicesSilent \/ TStopRet \/ TQ
   \/ Done
 
 ----------------------------------------------------------------------------
@@ -314,8 +328,9 @@ TStep ==
 \* formula per advertisement kind so that a rejection names what is wrong.
 AtFirstQ == session /\ lpc = "idle" /\ srv = "connected"
 Of(S, k) == {f \in S : f[1] = k}
-AdvKind(k) == /\ Of(sent, k) \subseteq Of(plan.exp, k)
-              /\ AtFirstQ => Of(sent, k) = Of(plan.exp, k)
+AdvKind(k) == \/ k = "shares" /\ plan.slow      \* not judged while the start-up scan may be in flight
+              \/ /\ Of(sent, k) \subseteq Of(plan.exp, k)
+                 /\ AtFirstQ => Of(sent, k) = Of(plan.exp, k)
 Adv_listen  == AdvKind("listen")
 Adv_status  == AdvKind("status")
 Adv_shares  == AdvKind("shares")
